@@ -24,6 +24,7 @@ import (
 	"io/fs"
 	"math/big"
 	"net"
+	"net/url"
 	"sort"
 	"strings"
 	"sync"
@@ -443,6 +444,7 @@ type vLeafSpec struct {
 	Pub       crypto.PublicKey
 	Serial    int64 // 0 = next
 	NoChain   bool
+	URIs      []string // URI SANs (kept by the library with their case)
 }
 
 // Sign makes a leaf and returns PEM(leaf [+ CA]) and the parsed leaf
@@ -463,6 +465,11 @@ func (ca *vCA) Sign(s vLeafSpec) ([]byte, *x509.Certificate) {
 	}
 	if ca.OCSP != "" {
 		tmpl.OCSPServer = []string{ca.OCSP}
+	}
+	for _, u := range s.URIs {
+		if pu, err := url.Parse(u); err == nil {
+			tmpl.URIs = append(tmpl.URIs, pu)
+		}
 	}
 	der, err := x509.CreateCertificate(rand.Reader, tmpl, ca.Cert, s.Pub, ca.Key)
 	if err != nil {
